@@ -200,7 +200,7 @@ impl Subcommand {
           .iter()
           .filter(|recipe| recipe.min_arguments() == 0),
       );
-      stack.extend(module.modules.values());
+      stack.extend(module.modules(config).into_iter().rev());
     }
 
     if recipes.is_empty() {
@@ -761,8 +761,8 @@ impl Subcommand {
       *printed += 1;
     }
 
-    for (name, module) in &justfile.modules {
-      components.push(name);
+    for module in justfile.modules(config) {
+      components.push(module.name());
       Self::summary_recursive(config, components, printed, module);
       components.pop();
     }
